@@ -47,6 +47,31 @@ Proof.
       * intros Hni. apply Hout. intros Hi. apply Hni. right. exact Hi.
 Qed.
 
+Lemma scan_td f : forall ids w td w', scan_loop f ids w = Val (OK td, w') ->
+  forall d, In d td -> In d ids /\ exists n, w_nodes w d = Some n /\ n_files n <> [] /\ set_remove f (n_files n) = [].
+Proof.
+  induction ids as [|s rest IH]; intros w td w' H d Hd; cbn [scan_loop] in H.
+  - apply wret_inv in H as ([= ->] & _). destruct Hd.
+  - apply wbind_inv in H as [(sn & w1 & H1 & H) | (e0 & H1 & [=])].
+    apply get_node_inv in H1 as (sn' & Hsn & [= <-] & ->).
+    destruct (negb (is_empty (n_files sn))) eqn:Ene.
+    + apply Bool.negb_true_iff, is_empty_false in Ene.
+      apply wbind_inv in H as [(u & w1 & H1 & H) | (e0 & H1 & [=])].
+      apply set_node_wset in H1 as (_ & ->).
+      apply wbind_inv in H as [(td1 & w2 & H2 & H) | (e0 & H2 & [=])].
+      apply wret_inv in H as (E & ->). injection E as E. subst td.
+      assert (In d td1 -> In d (s :: rest) /\ exists n, w_nodes w d = Some n /\ n_files n <> [] /\ set_remove f (n_files n) = []) as Rest.
+      { intros Hd1. destruct (IH _ _ _ H2 d Hd1) as (Hin & n1 & Hn1 & Hne1 & He1). split; [right; auto|].
+        destruct (N.eq_dec d s) as [->|Hds].
+        - rewrite nodes_wset_eq in Hn1. injection Hn1 as <-.
+          change (n_files (set_files sn (set_remove f (n_files sn)))) with (set_remove f (n_files sn)) in Hne1, He1.
+          rewrite set_remove_idem in He1. congruence.
+        - rewrite nodes_wset_neq in Hn1; auto. eauto. }
+      destruct (is_empty (set_remove f (n_files sn))) eqn:Ee; [|auto].
+      destruct Hd as [<-|Hd]; [|auto]. split; [left; auto|]. apply is_empty_nil in Ee. eauto.
+    + destruct (IH _ _ _ H d Hd) as (Hin & R). split; [right; auto|auto].
+Qed.
+
 Section Remove.
 Variable T : tables.
 
@@ -277,15 +302,28 @@ Qed.
 Lemma list_set_same {A} (l : list A) k x : nth_opt l k = Some x -> list_set l k x = l.
 Proof. revert k. induction l as [|a l IH]; intros [|k] H; cbn in *; try discriminate; [congruence|]. f_equal. auto. Qed.
 
-Theorem remove_file_inv m f w r w' :
+(* the shape of a remove_file that leaves another file: strip the file from every local set (same tree), then delete
+   the elements whose own set became empty *)
+Lemma remove_file_shape m f w r w' :
   TreeInv w -> FilesInv T w ->
   Known_root_last w (OpRemoveFile m f) = false -> Unowned w (OpRemoveFile m f) = false -> last_file w (OpRemoveFile m f) = false ->
-  m_remove_file T m f w = Val (r, w') -> FilesInv T w'.
+  m_remove_file T m f w = Val (r, w') ->
+  (w' = w /\ forall x, model_b w m = Some x -> ~ In f (m_files x)) \/
+  exists x cur w1 w3 td r3,
+    model_b w m = Some x /\ In x (w_models w) /\ In f (m_files x) /\ (forall j, w_nodes w1 j = w_nodes w j) /\ same_tree w w1 /\
+    Eff w (m_root x) cur /\ set_remove f cur <> [] /\
+    Stripped f (m_root x) cur w1 w3 /\ TreeInv w3 /\ FilesInv T w3 /\ del_loop td w3 = Val (r3, w') /\
+    forall d, In d td -> Reach w (m_root x) d /\ exists n, w_nodes w d = Some n /\ n_files n <> [] /\ set_remove f (n_files n) = [].
 Proof.
   intros TI FI HK HU HL H. pose proof TI as (C & _). unfold m_remove_file in H.
   apply wbind_inv in H as [(x & w0 & H1 & H) | (e0 & H1 & _)]; [|apply get_model_inv in H1 as (? & _ & [=] & _)].
   apply get_model_inv in H1 as (x' & Hx & [= <-] & ->).
-  destruct (index_of (N.eqb f) (m_files x)) as [pos|] eqn:Hpos; [|apply wret_inv in H as (_ & ->); exact FI].
+  destruct (index_of (N.eqb f) (m_files x)) as [pos|] eqn:Hpos.
+  2:{ apply wret_inv in H as (_ & ->). left. split; auto. intros x0 Hx0. unfold model_b in Hx0. assert (x0 = x) by congruence. subst x0.
+      intros Hin. clear - Hpos Hin. induction (m_files x) as [|a l IH]; [destruct Hin|]. cbn in Hpos.
+      destruct (f =? a) eqn:E; [discriminate|]. destruct Hin as [->|Hin]; [rewrite N.eqb_refl in E; discriminate|].
+      destruct (index_of (N.eqb f) l); [discriminate|]. auto. }
+  right.
   unfold last_file, model_b in HL. rewrite Hx, Hpos in HL.
   set (files' := swap_remove_at (m_files x) pos) in *.
   apply wbind_inv in H as [(u & w1 & H1 & H) | (e0 & H1 & _)]; [|discriminate].
@@ -410,7 +448,28 @@ Proof.
       rewrite H3', Hn0. rewrite Hout; [rewrite set_files_eta; reflexivity|].
       intros Hr. apply Hne. apply (reach_same_tree w1 w) in Hr; [|apply same_tree_sym; auto].
       symmetry. apply (reach_one_root w x y i C Hxin Hyin Hr Hi). }
-  destruct (del_loop_inv _ _ _ _ TI3 FI3 H) as (_ & FI4 & _). exact FI4.
+  exists x, cur, w1, w3, td, r0. split; [exact Hx|]. split; [exact Hxin|]. split; [exact Hfin|]. split; [exact Hn1|]. split; [exact ST|].
+  split; [exact Hcur|]. split; [exact Hrest|]. split; [exact S|]. split; [exact TI3|]. split; [exact FI3|]. split; [exact H|].
+  intros d Hd. destruct (scan_td f l w2 td w3 H3 d Hd) as (Hdl & n2 & Hn2 & Hne2 & He2).
+  assert (Reach w (m_root x) d) as Hrd.
+  { apply Hids in Hdl. apply (reach_same_tree w2 w); auto. apply same_tree_sym. eapply same_tree_trans; eauto. }
+  split; auto.
+  pose proof H2 as H2'. apply modify_node_wset in H2' as (en' & Hen' & _ & Ew2).
+  destruct (N.eq_dec d (m_root x)) as [->|Hdr].
+  - exfalso. rewrite Ew2 in Hn2. rewrite nodes_wset_eq in Hn2. injection Hn2 as <-.
+    change (n_files (set_files en' (set_remove f cur))) with (set_remove f cur) in Hne2, He2.
+    rewrite set_remove_idem in He2. congruence.
+  - rewrite Ew2 in Hn2. rewrite nodes_wset_neq in Hn2; auto. rewrite Hn1 in Hn2. eauto.
+Qed.
+
+Theorem remove_file_inv m f w r w' :
+  TreeInv w -> FilesInv T w ->
+  Known_root_last w (OpRemoveFile m f) = false -> Unowned w (OpRemoveFile m f) = false -> last_file w (OpRemoveFile m f) = false ->
+  m_remove_file T m f w = Val (r, w') -> FilesInv T w'.
+Proof.
+  intros TI FI HK HU HL H.
+  destruct (remove_file_shape m f w r w' TI FI HK HU HL H) as [(-> & _)|(x & cur & w1 & w3 & td & r3 & _ & _ & _ & _ & _ & _ & _ & _ & TI3 & FI3 & Hd & _)]; auto.
+  destruct (del_loop_inv _ _ _ _ TI3 FI3 Hd) as (_ & FI4 & _). exact FI4.
 Qed.
 
 End Remove.
